@@ -276,6 +276,8 @@ def synth_data(rng, x, n_peaks, width_steps=None, noise_pow=None, bkg_deg=None, 
         kind = rng.choice(shapes or PEAKS)
         sig = ws * h * rng.uniform(0.8, 1.25)
         height = nl * rng.uniform(*height_range)
+        if rng.random() < 0.12:
+            height = -height        # a dip: the fit converges to a negative amplitude ("peak points down" / wrong sign)
         frac = rng.uniform(0.1, 0.9)
         # amplitude giving roughly that height
         amp = height * sig * (math.sqrt(2 * math.pi) if kind == 'gaussian' else math.pi)
